@@ -127,6 +127,11 @@ def run(ctx):
             ctx.check("nullptr_t" not in pt and "optional" not in pt, "R18.8", wv[0], "value-engages:" + text,
                       "`%s` runs %s: nullptr, a legitimate value of the payload type, no longer yields an engaged optional holding it - storing a value empties the target"
                       % (text, g.id[:110]), (wv[0], ln), why_ok=short(g.qual) + "(" + pt + ")")
+    # ---- R18.9: reading an empty optional raises - and the exception can leave
+    ctx.rule("R18.9", "no member of optional / quaint_ptr is declared noexcept and reaches a raise (`*empty` has to raise an exception the caller can catch, not end in std::terminate); no catch handler lets one vanish")
+    from .common import rule_noexcept, rule_handlers
+    rule_noexcept(ctx, "R18.9", lambda g: g.file.endswith(("lang/optional.hpp", "lang/quaint_ptr.hpp")), "reading an empty optional has to raise", minimum=10)
+    rule_handlers(ctx, "R18.9", lambda g: g.file.endswith(("lang/optional.hpp", "lang/quaint_ptr.hpp")), ("nitro::except::exception",), "reading an empty optional has to raise", minimum=10)
     # ---- R18.2
     mq = [f for f in prog.find("nitro::lang::make_quaint") if f.has_cfg]
     ctx.need("R18.2", "make_quaint bodies (pattern + instantiation)", len(mq), 2)
@@ -139,6 +144,28 @@ def run(ctx):
                 elif n.get("k") == "lambda":
                     lambdas.append(n)
         tag = "pattern" if f.is_pattern else "inst<%s>" % f.flags.get("template_args", "")
+        if len(lambdas) > 1:
+            # several creation branches (e.g. one for over-aligned payloads): each deleter on its own has to run the destructor exactly once -
+            # a delete-expression, or an explicit destructor call in front of the raw release
+            for li, lam in enumerate(lambdas):
+                bodies = [prog.fn(b) for b in lam.get("bodies", [])] or [prog.fn(lam.get("id"))]
+                for b in [b for b in bodies if b is not None and b.has_cfg]:
+                    nd = nfree = ndtor = 0
+                    for bid, i, e in b.roots():
+                        for n in walk(e["expr"]):
+                            if n.get("k") == "delete":
+                                nd += 1
+                            elif n.get("k") == "call" and short(n.get("name") or "") in ("free", "operator delete", "aligned_free", "_aligned_free"):
+                                nfree += 1
+                            elif n.get("k") == "call" and ("~" in (n.get("name") or "") or n.get("dtor") or short(n.get("name") or "") in ("destroy_at",)):
+                                ndtor += 1
+                            elif n.get("k") in ("pseudo_dtor", "dtor_call"):
+                                ndtor += 1
+                    okd = (nd == 1 and nfree == 0) or (nd == 0 and nfree == 1 and ndtor == 1)
+                    ctx.check(okd, "R18.2", f, "deleter-deletes:%s#%d" % (tag, li),
+                              "deleter %d of make_quaint consists of %d delete-expression(s), %d explicit destructor call(s) and %d raw release(s): the object's destructor does not run exactly once "
+                              "(storage released without ~T, or destroyed twice)" % (li + 1, nd, ndtor, nfree), b)
+            continue
         if len(news) != 1 or len(lambdas) != 1:
             ctx.broken("R18.2", f, "new/deleter pair:" + tag,
                        "expected exactly one new-expression and one deleter lambda, found %d/%d" % (len(news), len(lambdas)), f)
